@@ -25,6 +25,7 @@ YVAL, YLIST = "Y", "(list Y)"      # the first entry of a timeslice (what Corr.f
 SCAL = "S"      # a scalar operand of a correlator operation (number or observable; abstract)
 ELT, OPTELT, CONTENT = "E", "(option E)", "(list (option E))"      # timeslice entries of a correlator (abstract element type E)
 VEC, VECLIST, MATX, PERMLIST = "V", "(list V)", "M", "(list (list Z))"      # eigenvectors / reference matrix of _sort_vectors (abstract)
+OPTSTR, OPTSTRLIST = "(option string)", "(list (option string))"      # names that may fail to be strings (None = some other object)
 INTMAT = "(list (list Z))"      # a two-dimensional integer array (rows)
 DICTL = "(list (string * list Z))"      # a dictionary from strings to lists of ints
 MAT2 = "(list (list Q))"      # a two-dimensional numpy float array
@@ -290,6 +291,10 @@ class Fn:
         if isinstance(v, ast.Call) and isinstance(v.func, ast.Attribute) and v.func.attr == "split" and len(v.args) == 1 and not v.keywords \
                 and isinstance(v.args[0], ast.Constant) and v.args[0].value == "|" and isinstance(node.slice, ast.Constant) and node.slice.value == 0:
             t, ty = self.expr(v.func.value, env, binds)
+            if ty == OPTSTR:
+                r = self.fresh()
+                binds.append((r, "py_str %s" % t))      # AttributeError (rendered TypeError) for an object that is not a string
+                return "(ens_of %s)" % r, STR
             if ty != STR:
                 raise TranslateError("%s: .split of %s" % (self.name, ty))
             return "(ens_of %s)" % t, STR
@@ -349,7 +354,7 @@ class Fn:
             return r, ARR
         if ti != INT:
             raise TranslateError("%s: index of type %s" % (self.name, ti))
-        elt = {IDL: INT, ARR: FLOAT, INTLIST: INT, IDLLIST: IDL, CONTENT: OPTELT, VECLIST: VEC}.get(ty)
+        elt = {IDL: INT, ARR: FLOAT, INTLIST: INT, IDLLIST: IDL, CONTENT: OPTELT, VECLIST: VEC, OPTSTRLIST: OPTSTR}.get(ty)
         if elt is None:
             raise TranslateError("%s: subscript of %s" % (self.name, ty))
         seq = "(cfgs %s)" % t if ty == IDL else t
@@ -404,7 +409,7 @@ class Fn:
         env2[x] = tx
         b = []
         body, tb = self.expr(node.elt, env2, b)
-        out = {FLOAT: ARR, INT: INTLIST, BOOL: BOOLLIST, VEC: VECLIST, ARR: MAT2}.get(tb)
+        out = {FLOAT: ARR, INT: INTLIST, BOOL: BOOLLIST, VEC: VECLIST, ARR: MAT2, STR: STRLIST}.get(tb)
         if out is None:
             raise TranslateError("%s: list comprehension producing %s" % (self.name, tb))
         r = self.fresh()
@@ -436,6 +441,8 @@ class Fn:
             return t, STR
         if ty == CONTENT:
             return t, OPTELT
+        if ty == OPTSTRLIST:
+            return t, OPTSTR
         if ty == PERMLIST:
             return t, INTLIST
         if ty == INTMAT:
@@ -472,7 +479,7 @@ class Fn:
             if ty != OPTELT:
                 raise TranslateError("%s: _check_for_none on %s" % (self.name, ty))
             return "(is_none %s)" % t, BOOL
-        if fname == "all" and len(node.args) == 1 and not node.keywords:
+        if fname == "all" and len(node.args) == 1 and not node.keywords and not isinstance(node.args[0], ast.GeneratorExp):
             t, ty = self.expr(node.args[0], env, binds)
             if ty != BOOLLIST:
                 raise TranslateError("%s: all(%s)" % (self.name, ty))
@@ -489,11 +496,36 @@ class Fn:
                 if tc == CONTENT and td == INT:
                     return "(py_roll %s %s)" % (c, d), CONTENT
             raise TranslateError("%s: np.roll call shape" % self.name)
+        if fname == "len" and len(node.args) == 1 and isinstance(node.args[0], ast.Call) and isinstance(node.args[0].func, ast.Name) \
+                and node.args[0].func.id == "set" and len(node.args[0].args) == 1 and not node.args[0].keywords:
+            t, ty = self.expr(node.args[0].args[0], env, binds)
+            if ty == OPTSTRLIST:
+                return "(zlen (optstr_set %s))" % t, INT
+            if ty == STRLIST:
+                return "(zlen (ssort_set %s))" % t, INT
+            raise TranslateError("%s: len(set(%s))" % (self.name, ty))
+        if fname == "isinstance" and len(node.args) == 2 and isinstance(node.args[1], ast.Name) and node.args[1].id == "str":
+            t, ty = self.expr(node.args[0], env, binds)
+            if ty != OPTSTR:
+                raise TranslateError("%s: isinstance(.., str) on %s" % (self.name, ty))
+            return "(is_some %s)" % t, BOOL
+        if fname == "all" and len(node.args) == 1 and isinstance(node.args[0], ast.GeneratorExp):
+            ge = node.args[0]
+            lc = ast.ListComp(elt=ge.elt, generators=ge.generators)
+            bl = []
+            t, ty = self.listcomp(lc, env, bl)
+            if ty != BOOLLIST:
+                raise TranslateError("%s: all(generator of %s)" % (self.name, ty))
+            # all() stops at the first False; the elements here cannot raise after a False would have been seen only if they are pure
+            if any("py_map (fun" in b_[1] and ("<-" in b_[1].split("=>", 1)[1]) for b_ in bl):
+                raise TranslateError("%s: all(generator) whose elements can raise" % self.name)
+            binds.extend(bl)
+            return "(forallb (fun b : bool => b) %s)" % t, BOOL
         if fname == "len" and len(node.args) == 1:
             t, ty = self.expr(node.args[0], env, binds)
             if ty == IDL:
                 return "(zlen (cfgs %s))" % t, INT
-            if ty in (ARR, INTLIST, IDLLIST, STRLIST, CONTENT):
+            if ty in (ARR, INTLIST, IDLLIST, STRLIST, CONTENT, OPTSTRLIST):
                 return "(zlen %s)" % t, INT
             raise TranslateError("%s: len of %s" % (self.name, ty))
         if fname == "isinstance" and len(node.args) == 2 and isinstance(node.args[1], ast.Name) and node.args[1].id == "range":
@@ -1223,6 +1255,15 @@ return corr_sorted
     return body[:cut[0]] + [ast.Return(value=ast.Name(id="mapping", ctx=ast.Load()))]
 
 
+def frag_init_validation(fn):
+    """Obs.__init__: the validation block `if kwargs.get("means") is None and len(samples): ...`; the fragment returns True when no check raised."""
+    want = _d(ast.parse('kwargs.get("means") is None and len(samples)', mode="eval").body)
+    body = [st for st in fn.body if not (isinstance(st, ast.Expr) and isinstance(st.value, ast.Constant))]
+    if not (isinstance(body[0], ast.If) and _d(body[0].test) == want and not body[0].orelse):
+        raise TranslateError("Obs.__init__: does not start with the validation block `if kwargs.get(\"means\") is None and len(samples):`")
+    return [body[0], ast.Return(value=ast.Constant(value=True))]
+
+
 def frag_init_idl_list(fn):
     """Obs.__init__: the branch `elif isinstance(idx, (list, np.ndarray)):` of the loop that stores idl; `self.idl[name] = X` becomes `return X`."""
     want = _d(ast.parse("isinstance(idx, (list, np.ndarray))", mode="eval").body)
@@ -1321,6 +1362,11 @@ SIGS = [
          extra_params=[("v_samples", INT), ("v_random_numbers", INTMAT), ("v_deltas", ARR), ("v_rmean", FLOAT), ("v_value", FLOAT)],
          env={"samples": INT, "random_numbers": INTMAT},
          aliases={"length": ("(zlen v_deltas)", INT), "self.deltas[name]": ("v_deltas", ARR), "self.r_values[name]": ("v_rmean", FLOAT), "self.value": ("v_value", FLOAT)}),
+    dict(coq="obs_init_validation", py="Obs.__init__", fragment=frag_init_validation, params=[], ret=BOOL,
+         extra_params=[("v_no_means", BOOL), ("v_nsamples", INT), ("v_names", OPTSTRLIST), ("v_has_idl", BOOL), ("v_len_idl", INT), ("v_minlen", INT)],
+         env={"names": OPTSTRLIST},
+         aliases={'kwargs.get("means") is None and len(samples)': ("(v_no_means && negb (v_nsamples =? 0))", BOOL), "len(samples)": ("v_nsamples", INT),
+                  "idl is not None": ("v_has_idl", BOOL), "len(idl)": ("v_len_idl", INT), "min(len(x) for x in samples)": ("v_minlen", INT)}),
     dict(coq="_reduce_deltas", py="_reduce_deltas", params=[("deltas", ARR), ("idx_old", IDL), ("idx_new", IDL)], ret=ARR),
     dict(coq="covariance_calc_gamma", py="_covariance_element.calc_gamma", needs=["_reduce_deltas"],
          params=[("deltas1", ARR), ("deltas2", ARR), ("idx1", IDL), ("idx2", IDL), ("new_idx", IDL)], ret=FLOAT),
